@@ -160,6 +160,28 @@ fn check_ahash(rng: &mut Rng, rounds: usize) {
     }
 }
 
+fn check_segqueue(rng: &mut Rng, rounds: usize) {
+    for _ in 0..rounds {
+        let (m, r) = (segq_model::SegQueue::<u64>::new(), segq_real::SegQueue::<u64>::new());
+        for _ in 0..60 {
+            match rng.below(3) {
+                0 | 1 => {
+                    let v = rng.next();
+                    m.push(v);
+                    r.push(v);
+                }
+                _ => assert_eq!(m.pop(), r.pop(), "SegQueue::pop"),
+            }
+            assert_eq!(m.is_empty(), r.is_empty(), "SegQueue::is_empty");
+            assert_eq!(m.len(), r.len(), "SegQueue::len");
+        }
+        while let Some(v) = r.pop() {
+            assert_eq!(m.pop(), Some(v), "SegQueue drain");
+        }
+        assert_eq!(m.pop(), None);
+    }
+}
+
 fn main() {
     let args: Vec<String> = std::env::args().collect();
     let seed: u64 = args.get(1).and_then(|s| s.parse().ok()).unwrap_or(1);
@@ -168,5 +190,6 @@ fn main() {
     check_bitsets(&mut rng, rounds);
     check_shrev(&mut rng, rounds);
     check_ahash(&mut rng, rounds);
-    println!("modelcheck: hibitset-bounded, shrev-vec, ahash-assoc agree with the real crates on {} rounds (seed {})", rounds, seed);
+    check_segqueue(&mut rng, rounds);
+    println!("modelcheck: hibitset-bounded, shrev-vec, ahash-assoc, crossbeam-queue-seq agree with the real crates on {} rounds (seed {})", rounds, seed);
 }
